@@ -375,14 +375,15 @@ impl Indexable for ast::BangOperator {
                     return Some(Type::Unknown);
                 };
 
-                if then_typ.can_be_casted_to(&ctx.symbol_map, &else_typ) {
-                    Some(then_typ)
-                } else {
-                    ctx.error(
-                        else_range,
-                        format!("inconsistent types {then_typ} and {else_typ} for !if"),
-                    );
-                    Some(Type::Unknown)
+                match then_typ.common_type(&ctx.symbol_map, &else_typ) {
+                    Some(typ) => Some(typ),
+                    None => {
+                        ctx.error(
+                            else_range,
+                            format!("inconsistent types {then_typ} and {else_typ} for !if"),
+                        );
+                        Some(Type::Unknown)
+                    }
                 }
             }
             SyntaxKind::XInitialized => {
